@@ -11,6 +11,11 @@ if ! git apply --check "$P" 2>/dev/null; then echo "PATCH DOES NOT APPLY"; cd /;
 git apply "$P"
 mkdir -p $ROOT/run; cd $ROOT && VERIF_REPO=$WT ./check $ID --tier $TIER > $ROOT/run/mut-$$-$ID.out 2>&1; RC=$?
 git -C /repo worktree remove --force $WT
+# scratch state of this run (binaries, run directory incl. replays) is removed unless KEEP=1
+if [ "$KEEP" != 1 ]; then
+  TAG=$(python3 -c "import hashlib,sys; print(hashlib.sha1(sys.argv[1].encode()).hexdigest()[:8])" $WT)
+  rm -rf $ROOT/run/alt-$TAG $ROOT/bin-$TAG $ROOT/harness/go.alt-$TAG.mod $ROOT/harness/go.alt-$TAG.sum
+fi
 grep -E "VIOLATION|KNOWN|INFRA" $ROOT/run/mut-$$-$ID.out | head -3
 rm -f $ROOT/run/mut-$$-$ID.out
 echo "exit=$RC"
